@@ -57,7 +57,7 @@ pub struct Case {
     pub base: Base,
     pub opts: Opts,
     pub inject: Inject,
-    /// 0 = first, 1 = middle, 2 = last chromosome / item
+    /// 0 = first, 1 = middle, 2 = last chromosome / item; item 3 = in front of the first item
     pub chrom_sel: u8,
     pub item_sel: u8,
     pub degenerate: Degenerate,
@@ -67,7 +67,7 @@ pub struct C13;
 
 fn pick(sel: u8, len: usize) -> usize {
     match sel {
-        0 => 0,
+        0 | 3 => 0,
         1 => len / 2,
         _ => len.saturating_sub(1),
     }
@@ -143,13 +143,26 @@ fn build(case: &Case) -> Built {
     // helper: insert a bad segment of up to 10 bases after item k of chromosome ck, shifting the rest
     let mut insert_after = |chroms: &mut Vec<(String, u32, Vec<(u32, u32, String)>)>, seg: Vec<(u32, u32)>, bigwig: bool| {
         let (_, size, items) = &mut chroms[ck];
+        *size = size.saturating_add(SHIFT + 10);
+        if case.item_sel == 3 {
+            // in front of everything: the violation involves the very first items of the chromosome
+            for it in items.iter_mut() {
+                it.0 += SHIFT;
+                it.1 += SHIFT;
+            }
+            let mut at = 0;
+            for (s, e) in seg {
+                items.insert(at, (s, e, payload.clone()));
+                at += 1;
+            }
+            return;
+        }
         let k = pick(case.item_sel, items.len());
         let p = if bigwig { items[k].1.max(items[k].0) } else { items[k].0 };
         for it in items.iter_mut().skip(k + 1) {
             it.0 += SHIFT;
             it.1 += SHIFT;
         }
-        *size = size.saturating_add(SHIFT + 10);
         let mut at = k + 1;
         for (s, e) in seg {
             items.insert(at, (p + s, p + e, payload.clone()));
@@ -165,14 +178,14 @@ fn build(case: &Case) -> Built {
             // make item k a positive-length value ending at >= 2, then shrink the chromosome below it
             insert_after(&mut chroms, vec![(1, 4)], true);
             let (_, size, items) = &mut chroms[ck];
-            let k = pick(case.item_sel, items.len() - 1) + 1;
+            let k = if case.item_sel == 3 { 0 } else { pick(case.item_sel, items.len() - 1) + 1 };
             *size = items[k].1 - 1;
         }
         Inject::BbStartOrder => insert_after(&mut chroms, vec![(5, 9), (1, 9)], false),
         Inject::BbStartGeSize => {
             insert_after(&mut chroms, vec![(3, 8)], false);
             let (_, size, items) = &mut chroms[ck];
-            let k = pick(case.item_sel, items.len() - 1) + 1;
+            let k = if case.item_sel == 3 { 0 } else { pick(case.item_sel, items.len() - 1) + 1 };
             *size = items[k].0; // start == size
             if case.item_sel == 1 && items[k].0 > 0 {
                 *size = items[k].0 - 1;
@@ -417,7 +430,7 @@ impl Prop for C13 {
     const TERMINATION: bool = true;
     fn rule() -> String {
         "a valid multi-chromosome input with ONE violation injected at a generated position: class in {bigWig out-of-order, overlap, start>end, end>size; bigBed start order, start>=size; \
-         unknown chromosome; chromosome order with sorted input required; malformed line (non-numeric, missing column, negative, blank); empty input} x {first, middle, last item} x {first, middle, last chromosome} \
+         unknown chromosome; chromosome order with sorted input required; malformed line (non-numeric, missing column, negative, blank); empty input} x {in front of the first, after the first, middle, last item} x {first, middle, last chromosome} \
          x {bigWig, bigBed} x {infallible iterator, fallible iterator, serial text, parallel text} x {single, two pass} (that grid once as fixed cases, plus generated bases/options); \
          oracle: the call returns Err (Ok is a violation), does not panic and returns within the deadline; valid degenerate inputs (only zero-length items, one item, items only at 0 / at the end, one chromosome all zero-length) must return, and if Ok the file must read back. \
          non-trivial = violation not at the first item of the first chromosome; distinct = distinct case JSON"
@@ -444,7 +457,7 @@ impl Prop for C13 {
             gen::opts(false),
             prop_oneof![3 => inject_for(true), 1 => Just(Inject::None)],
             0u8..3,
-            0u8..3,
+            0u8..4,
             select(vec![
                 Degenerate::No,
                 Degenerate::OnlyZeroLength,
@@ -475,7 +488,7 @@ impl Prop for C13 {
             gen::opts(false),
             prop_oneof![3 => inject_for(false), 1 => Just(Inject::None)],
             0u8..3,
-            0u8..3,
+            0u8..4,
             select(vec![
                 Degenerate::No,
                 Degenerate::OnlyZeroLength,
@@ -528,7 +541,7 @@ impl Prop for C13 {
             };
             for inject in classes {
                 for cs in 0..3u8 {
-                    for is in 0..3u8 {
+                    for is in 0..4u8 {
                         for src in sources {
                             for multipass in [false, true] {
                                 let mut o = Opts::default();
